@@ -33,7 +33,8 @@ class CSSProperty:
         self.value = (offset + start, offset + end)
         self.value_tokens = split_value(code[start:end], offset + start)
         self.before = before
-        self.after = offset + delimiter + 1
+        # Property without `;` delimiter ends right after its value
+        self.after = offset + (delimiter + 1 if delimiter != -1 else end)
 
     def to_json(self):
         return {
@@ -114,7 +115,7 @@ def select_next_item(code: str, pos: int) -> SelectItemModel:
         elif token_type == TokenType.PropertyName:
             pending_property[0] = (start, end, delimiter)
         elif token_type == TokenType.PropertyValue:
-            section = SelectItemModel(start, delimiter + 1 if delimiter != -1 else end, [])
+            section = SelectItemModel(start, property_end(code, end, delimiter), [])
             result[0] = section
 
             if pending_property[0]:
@@ -169,7 +170,7 @@ def select_previous_item(code: str, pos: int) -> SelectItemModel:
         result = SelectItemModel(state.start, state.end, [])
 
         if state.value_start != -1:
-            result.end = state.value_delimiter + 1 if state.value_delimiter != -1 else state.value_end
+            result.end = property_end(code, state.value_end, state.value_delimiter)
             # Full property range
             push_range(result.ranges, (state.start, result.end))
 
@@ -232,10 +233,21 @@ def parse_properties(code: str, parse_from=0, parse_to=None) -> list:
                                     start, end, delimiter, parse_from))
                     release_range(pool, state.pending_name)
                     state.pending_name = None
-                state.before = parse_from + delimiter + 1
+                state.before = parse_from + (delimiter + 1 if delimiter != -1 else end)
 
     scan(fragment, scan_callback)
     return result
+
+
+def property_end(code: str, end: int, delimiter: int) -> int:
+    """
+    Returns end location of CSS property with value that ends at `end`: right after
+    its `;` delimiter. A property terminated by the end of its section (`}`) or by the
+    end of the source ends with its value
+    """
+    if delimiter != -1 and code[delimiter] == ';':
+        return delimiter + 1
+    return end
 
 
 def alloc_range(pool: list, start: int, end: int, delimiter: int) -> list:
